@@ -158,7 +158,7 @@ def gen_cases(tier):
     if tier == "quick":
         plans += [(deep, (3,), PH2, False, False)]
     else:
-        plans += [(mid, (3,), PH2, False, False), (deep, (3,), PH2, True, False), (mid, (1, 2), PH3, True, True), (deep, (4,), PH2, False, False)]
+        plans += [(mid, (3,), PH2, False, False), (deep, (3,), PH2, True, False), (mid, (1,), PH3, True, True), (mid, (2,), PH3, False, True)]
     for T, ns, phases, full, ph3 in plans:
         for n in ns:
             for f in T.iter_forests(n):
